@@ -1,1 +1,466 @@
-fn main() { eprintln!("not built yet"); std::process::exit(2); }
+//! vh-front: C06 -- the front end never crashes, whatever text it is given.
+//!
+//! For every generated text the *real* pipeline of `dora compile` is run in-process:
+//!   Sema::new(program content) -> check_program (lex, parse, all semantic phases, error tolerant)
+//!   -> rendering of all diagnostics (Diagnostic::dump_to_string, the text the CLI prints)
+//!   -> emit_program when check_program returned true.
+//! Oracle: no panic in any stage (caught with location), check_program's result agrees with the
+//! diagnostics list, every located diagnostic's span lies inside the file it names (0 <= start <= end <=
+//! len, both ends on char boundaries), and no stage runs longer than a CPU-time bound (a watchdog thread
+//! ends the child with exit status 97 after writing a `SLOW` line; the Python side re-runs such a case
+//! alone with 10x the bound). Aborts / stack overflows kill the child and are attributed by vlib/inproc.py.
+//!
+//! Modes:
+//!   front  --seed S --shard I --nshards N --count C --out DIR [families=default|all|a,b,..] [cpu_limit_ms=N]
+//!          [cli_every=K clidir=DIR]           sharded campaign
+//!   file   path=FILE [cpu_limit_ms=N]         one file, JSON result on stdout (replay / minimisation)
+//!   families                                  print the family lists
+use std::collections::BTreeMap;
+use std::io::Write;
+use std::path::PathBuf;
+use std::sync::Arc;
+use std::sync::atomic::{AtomicU64, Ordering};
+
+use dora_frontend::sema::{Sema, SemaCreationParams};
+use dora_frontend::{ErrorDescriptor, check_program, emit_program};
+use vhc::textgen::{Case, Corpus};
+use vhc::{Args, Rng, Value, catch, json, msg_class};
+
+mod fams;
+
+// ------------------------------------------------------------------------------------------------
+// CPU-time watchdog. Only one thread of the child does real work, so process CPU time is the work
+// thread's CPU time.
+
+static CASE_START_NS: AtomicU64 = AtomicU64::new(0); // 0 = no case running
+static CASE_IDX: AtomicU64 = AtomicU64::new(0);
+static LIMIT_NS: AtomicU64 = AtomicU64::new(0);
+pub const EXIT_SLOW: i32 = 97;
+
+fn cpu_ns() -> u64 {
+    let mut ts = libc::timespec { tv_sec: 0, tv_nsec: 0 };
+    unsafe { libc::clock_gettime(libc::CLOCK_PROCESS_CPUTIME_ID, &mut ts) };
+    ts.tv_sec as u64 * 1_000_000_000 + ts.tv_nsec as u64
+}
+
+fn start_watchdog() {
+    std::thread::spawn(|| {
+        loop {
+            std::thread::sleep(std::time::Duration::from_millis(100));
+            let start = CASE_START_NS.load(Ordering::SeqCst);
+            let limit = LIMIT_NS.load(Ordering::SeqCst);
+            if start == 0 || limit == 0 {
+                continue;
+            }
+            let used = cpu_ns().saturating_sub(start);
+            if used > limit {
+                // the same case must still be running
+                if CASE_START_NS.load(Ordering::SeqCst) != start {
+                    continue;
+                }
+                println!(
+                    "SLOW idx={} limit_ms={} used_ms={}",
+                    CASE_IDX.load(Ordering::SeqCst),
+                    limit / 1_000_000,
+                    used / 1_000_000
+                );
+                let _ = std::io::stdout().flush();
+                unsafe { libc::_exit(EXIT_SLOW) };
+            }
+        }
+    });
+}
+
+fn limit_address_space() {
+    // A non-terminating parser loop usually also allocates without bound; turn that into an allocation
+    // failure of this child (abort -> child death, attributed to the input) instead of exhausting the machine.
+    let lim = libc::rlimit { rlim_cur: 8 << 30, rlim_max: 8 << 30 };
+    unsafe { libc::setrlimit(libc::RLIMIT_AS, &lim) };
+}
+
+// ------------------------------------------------------------------------------------------------
+// The pipeline and its oracle.
+
+#[derive(Default)]
+pub struct CaseResult {
+    pub bad: Vec<(String, String)>, // (key, what)
+    pub parse_clean: bool,          // no parser diagnostic in the program file
+    pub check_ok: bool,             // check_program returned true
+    pub emitted: bool,              // emit_program ran to completion
+    pub nerrors: u64,
+    pub nwarnings: u64,
+    pub diag_kinds: Vec<String>,  // distinct message templates (semantic diagnostics)
+    pub parse_kinds: Vec<String>, // distinct parser error kinds
+    pub rendered_bytes: u64,
+    pub functions: u64,
+    pub cpu_ms: f64,
+}
+
+fn parse_kind(msg: &str) -> String {
+    // "expected `)`." keeps its token: the set of expected tokens is small and each is a distinct recovery path
+    if msg.starts_with("unknown character") {
+        return "unknown character".into();
+    }
+    msg.to_string()
+}
+
+fn inspect_diag(sa: &Sema, e: &ErrorDescriptor, res: &mut CaseResult, program_file: &PathBuf, parse_errors_in_program: &mut u64) {
+    let is_parse = e.desc.message == "{0}";
+    let kind = if is_parse {
+        let k = parse_kind(&e.message(sa));
+        if !res.parse_kinds.contains(&k) {
+            res.parse_kinds.push(k.clone());
+        }
+        format!("parse:{}", msg_class(&k))
+    } else {
+        let k = e.desc.message.to_string();
+        if !res.diag_kinds.contains(&k) {
+            res.diag_kinds.push(k.clone());
+        }
+        k
+    };
+    match (e.file_id, e.span) {
+        (Some(fid), Some(span)) => {
+            let file = sa.file(fid);
+            if is_parse && &file.path == program_file {
+                *parse_errors_in_program += 1;
+            }
+            let text: &str = file.content.as_str();
+            let (s, l) = (span.start() as u64, span.len() as u64);
+            let end = s + l;
+            let name = file.path.file_name().map(|s| s.to_string_lossy().to_string()).unwrap_or_default();
+            if end > text.len() as u64 {
+                res.bad.push((
+                    format!("c06:span-outside-file:{}", kind),
+                    format!("diagnostic `{}` has span {}..{} but file {} has {} bytes", e.message(sa), s, end, name, text.len()),
+                ));
+            } else if !text.is_char_boundary(s as usize) || !text.is_char_boundary(end as usize) {
+                res.bad.push((
+                    format!("c06:span-not-on-char-boundary:{}", kind),
+                    format!("diagnostic `{}` has span {}..{} not on character boundaries of {}", e.message(sa), s, end, name),
+                ));
+            }
+        }
+        (None, None) => {}
+        _ => res.bad.push((format!("c06:half-located-diagnostic:{}", kind), "diagnostic with file but no span or vice versa".into())),
+    }
+}
+
+/// Message class of a panic: vhc::msg_class, with the payload of messages that embed types or function
+/// names of the input removed (the location already identifies the site).
+fn panic_class(msg: &str) -> String {
+    let first = msg.lines().next().unwrap_or("");
+    if first.starts_with("register type ") {
+        return "register type does not match expected type".into();
+    }
+    let mut c = msg_class(first);
+    for cut in [" in function ", " for function "] {
+        if let Some(p) = c.find(cut) {
+            if p >= 12 {
+                c.truncate(p);
+            }
+        }
+    }
+    c
+}
+
+fn panic_bad(stage: &str, p: vhc::Panicked) -> (String, String) {
+    (format!("panic@{}:{}", p.loc, panic_class(&p.msg)), format!("{} panicked at {}: {}", stage, p.loc, p.msg))
+}
+
+/// Runs the pipeline on `text` (the program file is <cwd>/main.dora, held in memory only).
+pub fn run_pipeline(text: Arc<String>) -> CaseResult {
+    let mut res = CaseResult::default();
+    let t0 = cpu_ns();
+    let program_file = std::env::current_dir().unwrap().join("main.dora");
+
+    // stage 1: Sema::new + check_program, exactly as dora/src/driver/start.rs::compile_program
+    let r = catch(move || {
+        let params = SemaCreationParams::new().set_program_content(text);
+        let mut sa = Sema::new(params);
+        let ok = check_program(&mut sa);
+        (sa, ok)
+    });
+    let (sa, ok) = match r {
+        Ok(v) => v,
+        Err(p) => {
+            res.bad.push(panic_bad("check_program", p));
+            res.cpu_ms = (cpu_ns() - t0) as f64 / 1e6;
+            return res;
+        }
+    };
+    res.check_ok = ok;
+
+    // stage 2: the diagnostics themselves
+    let r = catch(|| {
+        let mut local = CaseResult::default();
+        let mut pe = 0u64;
+        let d = sa.diag.borrow();
+        for e in d.errors().iter().chain(d.warnings().iter()) {
+            inspect_diag(&sa, e, &mut local, &program_file, &mut pe);
+        }
+        local.nerrors = d.errors().len() as u64;
+        local.nwarnings = d.warnings().len() as u64;
+        if ok == d.has_errors() {
+            local.bad.push((
+                "c06:check-result-disagrees-with-diagnostics".into(),
+                format!("check_program returned {} with {} errors", ok, d.errors().len()),
+            ));
+        }
+        (local, pe)
+    });
+    match r {
+        Ok((local, pe)) => {
+            res.bad.extend(local.bad);
+            res.diag_kinds = local.diag_kinds;
+            res.parse_kinds = local.parse_kinds;
+            res.nerrors = local.nerrors;
+            res.nwarnings = local.nwarnings;
+            res.parse_clean = pe == 0;
+        }
+        Err(p) => res.bad.push(panic_bad("formatting a diagnostic message", p)),
+    }
+
+    // stage 3: the text the CLI prints (line/column computation, source excerpt, underline)
+    let r = catch(|| sa.diag.borrow_mut().dump_to_string(&sa, true));
+    match r {
+        Ok(s) => res.rendered_bytes = s.len() as u64,
+        Err(p) => res.bad.push(panic_bad("rendering the diagnostics", p)),
+    }
+
+    // stage 4: bytecode emission for accepted programs
+    if ok && res.bad.is_empty() {
+        match catch(move || emit_program(sa)) {
+            Ok(prog) => {
+                res.emitted = true;
+                res.functions = prog.functions.len() as u64;
+            }
+            Err(p) => res.bad.push(panic_bad("emit_program (after check_program returned true)", p)),
+        }
+    } else {
+        // dropping a Sema must not panic either
+        if let Err(p) = catch(move || drop(sa)) {
+            res.bad.push(panic_bad("dropping the analysis state", p));
+        }
+    }
+    res.cpu_ms = (cpu_ns() - t0) as f64 / 1e6;
+    res
+}
+
+// ------------------------------------------------------------------------------------------------
+// Reporter (same file protocol as vhc::Reporter, but every line is flushed: children of this check may be
+// ended by the watchdog at any time and their earlier results must survive).
+
+struct Rep {
+    f: std::fs::File,
+    cur: PathBuf,
+    curidx: PathBuf,
+    stats: BTreeMap<String, u64>,
+    kinds: BTreeMap<String, u64>,
+    pkinds: BTreeMap<String, u64>,
+    bad: u64,
+    per_key: BTreeMap<String, (u64, usize)>, // occurrences, smallest input written so far
+}
+
+impl Rep {
+    fn new(args: &Args) -> Rep {
+        std::fs::create_dir_all(&args.out).unwrap();
+        Rep {
+            f: std::fs::File::create(args.out.join(format!("shard_{}.jsonl", args.shard))).unwrap(),
+            cur: args.out.join(format!("cur_{}.txt", args.shard)),
+            curidx: args.out.join(format!("cur_{}.idx", args.shard)),
+            stats: BTreeMap::new(),
+            kinds: BTreeMap::new(),
+            pkinds: BTreeMap::new(),
+            bad: 0,
+            per_key: BTreeMap::new(),
+        }
+    }
+    fn begin_case(&mut self, idx: u64, text: &[u8]) {
+        let _ = std::fs::write(&self.cur, text);
+        let _ = std::fs::write(&self.curidx, idx.to_string());
+    }
+    fn count(&mut self, k: &str, n: u64) {
+        *self.stats.entry(k.to_string()).or_insert(0) += n;
+    }
+    fn line(&mut self, v: Value) {
+        let mut s = v.to_string();
+        s.push('\n');
+        self.f.write_all(s.as_bytes()).unwrap();
+    }
+    fn flush_stats(&mut self) {
+        let stats: serde_json::Map<String, Value> = std::mem::take(&mut self.stats).into_iter().map(|(k, v)| (k, json!(v))).collect();
+        let kinds = std::mem::take(&mut self.kinds);
+        let pkinds = std::mem::take(&mut self.pkinds);
+        let mut m = stats;
+        m.insert("diag_kinds".into(), json!(kinds));
+        m.insert("parse_kinds".into(), json!(pkinds));
+        self.line(json!({"t": "stats", "stats": Value::Object(m)}));
+    }
+    fn finish(mut self) {
+        self.flush_stats();
+        self.line(json!({"t": "done"}));
+        let _ = std::fs::remove_file(&self.cur);
+        let _ = std::fs::remove_file(&self.curidx);
+    }
+}
+
+// ------------------------------------------------------------------------------------------------
+
+fn calibrate() -> f64 {
+    // median CPU time of the pipeline on a trivial program = cost of loading the standard library
+    let mut v = vec![];
+    for _ in 0..3 {
+        let r = run_pipeline(Arc::new("fn main() {}\n".to_string()));
+        v.push(r.cpu_ms);
+    }
+    v.sort_by(|a, b| a.partial_cmp(b).unwrap());
+    v[1]
+}
+
+fn set_limit(args: &Args) -> (f64, f64) {
+    let base = calibrate();
+    let limit_ms = match args.get("cpu_limit_ms") {
+        Some(s) => s.parse::<f64>().unwrap(),
+        None => (200.0 * base).max(10_000.0),
+    };
+    LIMIT_NS.store((limit_ms * 1e6) as u64, Ordering::SeqCst);
+    (base, limit_ms)
+}
+
+fn guarded(idx: u64, text: Arc<String>) -> CaseResult {
+    CASE_IDX.store(idx, Ordering::SeqCst);
+    CASE_START_NS.store(cpu_ns().max(1), Ordering::SeqCst);
+    let r = run_pipeline(text);
+    CASE_START_NS.store(0, Ordering::SeqCst);
+    r
+}
+
+fn run_front(args: &Args) {
+    let corpus = Corpus::load(args.extra.as_deref());
+    let fams = fams::select_families(args.get("families").unwrap_or("default"));
+    let cli_every: u64 = args.get("cli_every").map(|s| s.parse().unwrap()).unwrap_or(0);
+    let clidir = args.get("clidir").map(PathBuf::from);
+    let mut rep = Rep::new(args);
+    // the program file lives in memory only; `mod x;` items are looked up next to it, i.e. in this directory
+    let cwd = args.out.join(format!("cwd_{}", args.shard));
+    std::fs::create_dir_all(&cwd).unwrap();
+    std::env::set_current_dir(&cwd).unwrap();
+    let (base, limit_ms) = set_limit(args);
+    rep.line(json!({"t": "calib", "base_ms": base, "limit_ms": limit_ms}));
+    let mut n = 0u64;
+    for idx in args.indices() {
+        let case: Case = fams::gen_case(&corpus, &fams, args.seed, idx);
+        rep.begin_case(idx, case.text.as_bytes());
+        let h = vhc::fnv(case.text.as_bytes());
+        let to_cli = cli_every > 0 && Rng::new(args.seed, 0xc11, idx).below(cli_every as usize) == 0;
+        if to_cli {
+            if let Some(d) = &clidir {
+                let dd = d.join(idx.to_string());
+                let _ = std::fs::create_dir_all(&dd);
+                let _ = std::fs::write(dd.join("main.dora"), case.text.as_bytes());
+            }
+        }
+        let text = Arc::new(case.text);
+        let res = guarded(idx, text.clone());
+        rep.count("cases", 1);
+        rep.count(&format!("family:{}", case.family), 1);
+        rep.count("input_bytes", text.len() as u64);
+        if res.parse_clean {
+            rep.count("parse_clean", 1);
+            rep.count(&format!("parse_clean:{}", case.family), 1);
+        }
+        if res.check_ok {
+            rep.count("check_ok", 1);
+        }
+        if res.emitted {
+            rep.count("emitted", 1);
+            rep.count("emitted_functions", res.functions);
+        }
+        rep.count("diagnostics_errors", res.nerrors);
+        rep.count("diagnostics_warnings", res.nwarnings);
+        rep.count("rendered_bytes", res.rendered_bytes);
+        for k in &res.diag_kinds {
+            *rep.kinds.entry(k.clone()).or_insert(0) += 1;
+        }
+        for k in &res.parse_kinds {
+            *rep.pkinds.entry(k.clone()).or_insert(0) += 1;
+        }
+        let panicked = res.bad.iter().any(|(k, _)| k.starts_with("panic@"));
+        if panicked {
+            rep.count("panicked", 1);
+        }
+        if to_cli {
+            if let Some(d) = &clidir {
+                let keys: Vec<&String> = res.bad.iter().map(|(k, _)| k).collect();
+                let _ = std::fs::write(
+                    d.join(idx.to_string()).join("inproc.json"),
+                    json!({"idx": idx, "ok": res.check_ok, "emitted": res.emitted, "errors": res.nerrors, "bad": keys, "family": case.family}).to_string(),
+                );
+            }
+        }
+        let snip: String = if idx < 64 { text.chars().take(160).collect() } else { String::new() };
+        rep.line(json!({"t": "ok", "idx": idx, "h": h, "fam": case.family, "clean": res.parse_clean, "ok": res.check_ok,
+            "ms": (res.cpu_ms * 10.0).round() / 10.0, "len": text.len(), "cli": to_cli, "p": panicked, "snip": snip}));
+        for (key, what) in &res.bad {
+            rep.bad += 1;
+            // witness text: the first occurrences of a key, and later ones only when they are smaller
+            let e = rep.per_key.entry(key.clone()).or_insert((0, usize::MAX));
+            e.0 += 1;
+            let with_input = e.0 <= 2 || text.len() < e.1;
+            if with_input {
+                e.1 = e.1.min(text.len());
+            }
+            let input: &str = if with_input { text.as_str() } else { "" };
+            rep.line(json!({"t": "bad", "idx": idx, "key": key, "what": what, "family": case.family, "input": input}));
+        }
+        n += 1;
+        if n % 64 == 0 {
+            rep.flush_stats();
+        }
+    }
+    rep.finish();
+}
+
+fn run_file(args: &Args) {
+    let path = args.get("path").expect("path=FILE");
+    let text = std::fs::read_to_string(path).expect("readable UTF-8 file");
+    let cwd = std::env::temp_dir().join(format!("vh-front-file-{}", std::process::id()));
+    std::fs::create_dir_all(&cwd).unwrap();
+    std::env::set_current_dir(&cwd).unwrap();
+    let (base, limit_ms) = set_limit(args);
+    let res = guarded(0, Arc::new(text));
+    let bad: Vec<Value> = res.bad.iter().map(|(k, w)| json!({"key": k, "what": w})).collect();
+    println!(
+        "{}",
+        json!({"bad": bad, "parse_clean": res.parse_clean, "check_ok": res.check_ok, "emitted": res.emitted, "errors": res.nerrors,
+            "warnings": res.nwarnings, "diag_kinds": res.diag_kinds, "parse_kinds": res.parse_kinds, "cpu_ms": res.cpu_ms,
+            "base_ms": base, "limit_ms": limit_ms})
+    );
+    let _ = std::env::set_current_dir("/");
+    let _ = std::fs::remove_dir(&cwd);
+}
+
+fn main() {
+    let args = Args::parse();
+    vhc::install_panic_hook();
+    limit_address_space();
+    start_watchdog();
+    let mode = args.mode.clone();
+    vhc::with_big_stack(move || match mode.as_str() {
+        "front" => run_front(&args),
+        "file" => run_file(&args),
+        "show" => {
+            let corpus = Corpus::load(args.extra.as_deref());
+            let fams = fams::select_families(args.get("families").unwrap_or("default"));
+            for idx in args.indices() {
+                let case = fams::gen_case(&corpus, &fams, args.seed, idx);
+                println!("// ---- idx {} family {}\n{}", idx, case.family, case.text);
+            }
+        }
+        "families" => {
+            println!("{}", json!({"default": fams::select_families("default"), "all": fams::select_families("all")}));
+        }
+        m => panic!("unknown mode {}", m),
+    });
+}
